@@ -353,6 +353,21 @@ PREDS = {
     "expr/col=str": ("b == ''", "b", lambda d: d["b"] == ""),
     "expr/missing": ("c is None", None, lambda d: d["c"] is None),
 }
+def _col_has_x(col): return any(isinstance(py(v), str) and py(v) == "x" for v in col)
+def _col_all_num(col): return len(col) > 0 and all(isinstance(py(v), (int, float)) and not isinstance(py(v), bool) for v in col)
+def _col_true(col): return True
+def _col_false(col): return False
+def _col_len2(col): return len(col) >= 2
+
+
+# column filters: name -> (callback given to cogent3, plain predicate on the list of the column's values)
+COL_PREDS = {
+    "has-x": (_col_has_x, lambda vs: any(isinstance(v, str) and v == "x" for v in vs)),
+    "all-numbers": (_col_all_num, lambda vs: len(vs) > 0 and all(isinstance(v, (int, float)) and not isinstance(v, bool) for v in vs)),
+    "always": (_col_true, lambda vs: True),
+    "never": (_col_false, lambda vs: False),
+    "at-least-two-rows": (_col_len2, lambda vs: len(vs) >= 2),
+}
 FC_COLS_UNIQUE = [None, "a", ["a"], ["a", "b"], ["b", "a"], ["c"], ["a", "b", "c"]]
 FC_COLS_DISTINCT = ["a", ["a"], ["a", "b"], ["c", "a"], "b", ["c"]]
 FC_ROWS = [[a, b, c] for a in (0, 1) for b in ("x", "") for c in (None, 1.5)]
@@ -363,7 +378,8 @@ def gen_filter(tier, seed):
     thorough = tier == "thorough"
     nmax = 4 if thorough else 3
     ops = ([["filtered", p] for p in PREDS] + [["count", p] for p in PREDS]
-           + [["count_unique", c] for c in FC_COLS_UNIQUE] + [["distinct_values", c] for c in FC_COLS_DISTINCT])
+           + [["count_unique", c] for c in FC_COLS_UNIQUE] + [["distinct_values", c] for c in FC_COLS_DISTINCT]
+           + [["filtered_by_column", p] for p in COL_PREDS])
     for corpus in (FC_ROWS, FC_ROWS_B):
         for n in range(0, nmax + 1):
             if corpus is FC_ROWS_B and n > 3:
@@ -407,6 +423,21 @@ def contract_filter(case):
             r = compare(site, pat, (header, [r_ for r_, k in zip(rows, keep) if k]), got, case)
             if r:
                 return r
+        r = unchanged(site, pat, [tab], [t], case)
+        return r or ("ok", any(keep) and not all(keep))
+    if op == "filtered_by_column":
+        cb, pred = COL_PREDS[arg]
+        site = f"{op}/{arg}"
+        keep = [bool(pred([r[j] for r in rows])) for j in range(len(header))]
+        try:
+            got = t.filtered_by_column(cb)
+        except Exception as e:
+            return ("fail", f"{site}/raises-{type(e).__name__}/{pat}", f"{short(case)}: {type(e).__name__}: {e}")
+        exp_h = [h for h, k in zip(header, keep) if k]
+        exp_rows = [[v for v, k in zip(r, keep) if k] for r in rows] if exp_h else []
+        r = compare(site, pat, (exp_h, exp_rows), got, case)
+        if r:
+            return r
         r = unchanged(site, pat, [tab], [t], case)
         return r or ("ok", any(keep) and not all(keep))
     cols = arg
@@ -1056,10 +1087,11 @@ BOUNDED = {
     "filter_count": {
         "gen": gen_filter, "contract": contract_filter,
         "functions": ["Table.filtered", "Table.count", "Table.count_unique", "Table.distinct_values",
-                      "Table.get_row_indices"],
+                      "Table.get_row_indices", "Table.filtered_by_column"],
         "bound": "every table of 0..4 rows (quick 0..3) over 8 row values (int x str-or-empty x float-or-missing) and "
                  "0..3 rows over 8 (float, bool, mixed) rows; 12 predicates (callable and expression, columns given as "
-                 "str / list / None) for filtered and count, 7 column forms for count_unique, 6 for distinct_values; "
+                 "str / list / None) for filtered and count, 7 column forms for count_unique, 6 for distinct_values, 5 column "
+                 "predicates for filtered_by_column; "
                  "seeded sample of 5..30 rows",
         "rule": "a case = (table, method, predicate-or-columns); non-trivial when the predicate keeps some but not all "
                 "rows / when a value repeats; distinct by hash",
